@@ -282,6 +282,7 @@ func c03RunSet(c *Ctx, s *c03Set, nEnc int) {
 	c03DecryptJunk(c, s, c.Scale(6, 16))
 	c03KeygenReused(c, s)
 	c03DecryptReusedReceiver(c, s)
+	c03DerivedObjects(c, s)
 	c03Statistics(c, s)
 }
 
